@@ -14,6 +14,7 @@ from ..ref import quat as rq
 PROP = "C08"
 LEVEL = "exploration"
 SHARDS = {"quick": 2, "thorough": 16}
+THOROUGH_DEPTH = 20      # thorough tier = this many times the base thorough budget (VERIF_DEPTH overrides)
 ROUTES = ["closed/update", "closed/batch", "series/order", "first-order/Madgwick.updateIMU", "first-order/Madgwick.updateMARG",
           "first-order/Mahony.updateIMU", "first-order/Mahony.updateMARG", "first-order/AQUA.updateIMU", "first-order/AQUA.updateMARG",
           "first-order/EKF.f", "first-order/ROLEQ.attitude_propagation", "first-order/AngularRate.series1", "angular_velocities"]
